@@ -6,4 +6,10 @@ import (
 	"verif/report"
 )
 
+// runE2E: placeholder for the end-to-end conformance part described in
+// DESIGN.md §2 C13 (replaying BFS traces against two syncers with the real
+// loops over loopback HTTP). NOT IMPLEMENTED: the two findings of this check
+// were instead reproduced over loopback HTTP with the real loops/functions by
+// the plain Go tests kept in plain_repro_test.go.txt. It adds no part and no
+// evidence, so nothing is claimed for it.
 func runE2E(t *testing.T, run *report.Run) {}
